@@ -123,6 +123,9 @@ func c03Pod(class int, ns, rsName, edsName, node, hash string, now time.Time) *c
 	case cOldUnavail:
 		p.Annotations[v1.MD5ExtendedDaemonSetAnnotationKey] = old
 		ready(false)
+		// younger than the available outdated pods (re-created by the previous replica set shortly before the template
+		// was edited): the order of replacement must not follow age
+		p.CreationTimestamp = metav1.NewTime(now.Add(-5 * time.Minute))
 	case cOldTerminating:
 		p.Annotations[v1.MD5ExtendedDaemonSetAnnotationKey] = old
 		ready(true)
